@@ -100,3 +100,28 @@ pub fn wrapping(d: &Data, opts: &Opts, text: &str) -> (String, String, String) {
     if opts.smart_quote && !w.is_empty() { cp = curl_open(&cp); cr = curl_close(&cr); }
     (cp, w, cr)
 }
+
+/// a word that came and went BEFORE the text under test: properties about a composition hold in a context that has already ended other
+/// words in any of the ways a word can end. kind 0 = nothing; 1 = finish; 2 = ctrl-backspace; 3 = backspaces down to empty;
+/// 4 = commit of the index on display; 5 / 6 (phonetic list only; may change the learned store under the EMPTY word part) = the emoticon `;)`
+/// committed at index 0 / 1. `keys` = the keys of the earlier word in the layout of the context.
+pub fn prelude(s: &mut Sess, t: &mut Trace, kind: usize, keys: &[(u16, u8)]) {
+    if kind == 0 { return; }
+    if kind >= 5 {
+        // the index the engine itself computed is not the one on display after a punctuation key (the caller's byte is returned), so
+        // "not the preselected one" is tried both ways: kind 5 commits candidate 0, kind 6 candidate 1
+        let mut o = Obs::Unit;
+        for c in ";)".chars() { o = s.key(t, code_for_char(c).unwrap(), 0, 0); }
+        match &o { Obs::Full { cands, .. } if cands.len() > 1 => { s.commit(t, if kind == 5 { 0 } else { 1 }); } Obs::Panic => {} _ => { s.finish(t); } }
+        return;
+    }
+    let mut o = Obs::Unit;
+    for (code, m) in keys { let sel = match &o { Obs::Full { sel, cands, .. } if *sel < cands.len() => (*sel).min(255) as u8, _ => 0 }; o = s.key(t, *code, *m, sel); if o == Obs::Panic { return; } }
+    match kind {
+        1 => { s.finish(t); }
+        2 => { s.backspace(t, true); }
+        3 => { for _ in 0..(keys.len() + 3) { if !s.imp.ongoing() { break; } s.backspace(t, false); } if s.imp.ongoing() { s.finish(t); } }
+        _ => { match &o { Obs::Full { sel, cands, .. } if *sel < cands.len() => { s.commit(t, *sel); } Obs::Single { .. } => { s.commit(t, 0); } _ => { s.finish(t); } } }
+    }
+}
+pub fn ascii_keys(txt: &str) -> Vec<(u16, u8)> { txt.chars().filter_map(|c| code_for_char(c).map(|k| (k, 0u8))).collect() }
